@@ -5,6 +5,7 @@ func init() {
 	a := "ast/ast.go"
 	pf := "parser/parser_functions.go"
 	addVariants(
+		variant{Prop: "C07", Name: "escaped-backslash-in-backticks-halved", File: lx, Old: "\t\t\t\tresult.WriteString(\"\\\\\\\\\")", New: "\t\t\t\tresult.WriteByte('\\\\')", Rule: "R7.8", Construct: "rounds"},
 		variant{Prop: "C07", Name: "escaped-quote-loses-backslash", File: lx, Old: "\t\t\t\tcase 'n', 't', 'r', '\\\\', '\"', '\\'':\n\t\t\t\t\tresult.WriteByte('\\\\')\n\t\t\t\t\tresult.WriteByte(l.CurrentChar)", New: "\t\t\t\tcase 'n', 't', 'r', '\\\\':\n\t\t\t\t\tresult.WriteByte('\\\\')\n\t\t\t\t\tresult.WriteByte(l.CurrentChar)\n\t\t\t\tcase '\"', '\\'':\n\t\t\t\t\tresult.WriteByte(l.CurrentChar)", Rule: "R7.1", Construct: "readString"},
 		variant{Prop: "C07", Name: "raw-double-quote-unescaped-again", File: lx, Old: "\t\tif l.CurrentChar == '\"' {\n\t\t\t// strings are always printed between double quotes: a double quote\n\t\t\t// inside a single-quoted string has to be escaped in the output\n\t\t\tresult.WriteByte('\\\\')\n\t\t\tresult.WriteByte('\"')\n\t\t\tcontinue\n\t\t}\n", New: "", Rule: "R7.1", Construct: "verbatim sink #1 after \"raw\""},
 		variant{Prop: "C07", Name: "backtick-printed-unescaped-again", File: a, Old: "cw.WriteString(strings.ReplaceAll(sl.Value, \"`\", \"\\\\`\"))", New: "_ = strings.ReplaceAll\n\tcw.WriteString(sl.Value)", Rule: "R7.1", Construct: "readRawString"},
